@@ -6,7 +6,7 @@
 (* clause prints <<"REJECT", id, property, clause>>, the spec state then   *)
 (* follows the SPECIFIED outcome and the walk continues.                   *)
 (***************************************************************************)
-EXTENDS Api, Content, Json, IOUtils, TLC, TLCExt
+EXTENDS Api, Content, Conn, Json, IOUtils, TLC, TLCExt
 
 Events == ndJsonDeserialize(IOEnv.TRACE_FILE)
 
@@ -524,6 +524,43 @@ RpcRecv(e) ==
     /\ Chk(e, "C14", "reply_matched_by_valid_replies", e.accepted = IsReplyTo(e.name, st.rpc[e.ch]))
     /\ st' = [st EXCEPT !.rpc[e.ch] = IF IsReplyTo(e.name, st.rpc[e.ch]) THEN "" ELSE @]
 
+\* ---- the connection life cycle (Conn.tla; beyond the listed properties): conversations generated by TLC from the design
+\* model are spoken with real frames; what the receiving decoder reports must be the scripted frame, must be a legal
+\* next frame of the protocol machine, and must carry the metadata the machine relies on ----
+ConnEv(x, wire) == [dir |-> x.dir, ch |-> x.ch, kind |-> x.kind, name |-> x.name, size |-> x.size, wire |-> wire, fm |-> x.fm, cm |-> x.cm]
+KindProp(k) == IF k = "method" THEN "C01" ELSE IF k = "header" THEN "C02" ELSE "C18"
+ConnReset(e) == st' = [st EXCEPT !.conn = ConnInit]
+ConnFrame(e) ==
+    LET got == ConnEv(e, e.wire)
+        want == ConnEv(e.want, e.mlen)
+        scripted == e.want.kind # "none"
+        same == scripted /\ got.dir = want.dir /\ got.ch = want.ch /\ got.kind = want.kind /\ got.name = want.name
+                /\ got.size = want.size /\ got.fm = want.fm /\ got.cm = want.cm
+        known == e.kind = "method" /\ e.name \in MethodNames
+    IN
+    /\ Premise(e, "scripted_frame_is_legal", ~scripted \/ ConnLegal(st.conn, want))
+    \* the frame the peer decoded is the frame that was marshalled (round trip through a byte stream cut anywhere)
+    /\ Chk(e, "C01", "session_frame_survives", want.kind = "method" => same)
+    /\ Chk(e, "C02", "session_frame_survives", want.kind = "header" => same)
+    /\ Chk(e, "C18", "session_frame_survives", want.kind \in {"body", "heartbeat", "proto"} => same)
+    /\ Chk(e, "C06", "session_consumed_is_frame_length", scripted /\ e.wire = e.mlen)
+    /\ Chk(e, "C20", "session_consumed_is_frame_length", scripted /\ e.wire = e.mlen)
+    \* what the decoder reports is a legal next step of the protocol machine (sizes as measured on the real wire)
+    /\ Chk(e, "C06", "session_stays_legal", ConnLegal(st.conn, got))
+    /\ Chk(e, "C18", "session_stays_legal", ConnLegal(st.conn, got))
+    /\ Chk(e, "C20", "session_stays_legal", ConnLegal(st.conn, got))
+    /\ Chk(e, "C14", "session_stays_legal", ConnLegal(st.conn, got))
+    \* the metadata a client drives the machine with
+    /\ Chk(e, "C14", "session_metadata", e.kind = "method" =>
+             (known /\ e.sync = Waits(e.name) /\ { e.resp[i] : i \in 1..Len(e.resp) } = Resp(e.name)))
+    /\ st' = [st EXCEPT !.conn = IF scripted /\ ConnLegal(@, want) THEN ConnStep(@, want) ELSE @]
+ConnQuiesce(e) ==
+    /\ Chk(e, "C06", "session_all_frames_received", e.left = 0 /\ e.inflight = 0)
+    /\ Chk(e, "C18", "session_all_frames_received", e.left = 0 /\ e.inflight = 0)
+    /\ Chk(e, "C20", "session_all_frames_received", e.left = 0 /\ e.inflight = 0)
+    /\ Chk(e, "C14", "session_all_frames_received", e.left = 0 /\ e.inflight = 0)
+    /\ UNCHANGED st
+
 \* ---- content assembly (Content.tla; beyond the listed properties, judged under C18) ----
 CChans == 0..7
 ToC(f) == IF f.cls = "ContentHeader" THEN [kind |-> "header", size |-> NatOfMag(f.size)]
@@ -624,6 +661,11 @@ HToggle(e) == st' = [st EXCEPT !.legacy = ToggleArg(e.arg)]
 
 Toggle(e) == st' = [st EXCEPT !.legacy = ToggleArg(e.arg)]
 SetTZ(e)  == st' = [st EXCEPT !.tz = e.z]
+\* the LIBRARY raised out of a call that the property's driver makes, unguarded, on every run (on the unchanged tree
+\* none does: every seed explored).  The rest of the shard's workload was not executed; what was recorded before is
+\* judged as usual.
+DriverAbort(e) == /\ \A i \in 1..Len(e.p) : Chk(e, e.p[i], "library_refused_a_call_made_on_every_run", FALSE)
+                  /\ UNCHANGED st
 
 Step == /\ l <= Len(Events)
         /\ l' = l + 1
@@ -678,10 +720,14 @@ Step == /\ l <= Len(Events)
              [] e.a = "Quiesce"     -> Quiesce(e)
              [] e.a = "Toggle"      -> Toggle(e)
              [] e.a = "SetTZ"       -> SetTZ(e)
+             [] e.a = "DriverAbort" -> DriverAbort(e)
+             [] e.a = "ConnReset"   -> ConnReset(e)
+             [] e.a = "ConnFrame"   -> ConnFrame(e)
+             [] e.a = "ConnQuiesce" -> ConnQuiesce(e)
 
 Init == /\ l = 1
         /\ st = [legacy |-> FALSE, tz |-> "UTC", wire |-> <<>>, buf |-> <<>>, sent |-> <<>>, got |-> 0, used |-> 0,
-                  heap |-> HeapInit, rpc |-> [c \in 0..7 |-> ""],
+                  heap |-> HeapInit, rpc |-> [c \in 0..7 |-> ""], conn |-> ConnInit,
                   asm |-> [c \in 0..7 |-> Idle], cdel |-> [c \in 0..7 |-> <<>>], cpub |-> [c \in 0..7 |-> <<>>]]
 Spec == Init /\ [][Step]_vars
 TraceConsumed == TLCGet("stats").diameter - 1 = Len(Events)
